@@ -36,7 +36,7 @@ func init() {
 	Register(&Prop{
 		ID:         "C06",
 		Gomaxprocs: 2,
-		Rule:       "byte strings up to 64 KiB: (1) journals from G and hand-written corner snippets mutated by 1-6 operators (bit flips, deletions, duplications, truncation, splices of a dictionary of syntax fragments, invalid UTF-8 sequences, control characters, BOM, Unicode blanks and separators, extreme numbers and exponents, malformed dates), (2) parametric hostile shapes (one long line, 'a|a|a|...' headers, deeply nested account names, huge digit strings, grouped numbers, thousands of tags, brackets, quotes, blank lines, tiny transactions, postings, directives with sub-directives, include lines, ...) at sizes up to 64 KiB. Each input: the lexer is run alone (progress oracle: token spans inside the input, left to right, no overlap, gaps only blanks, EOF token at len(input), token count <= 2n+8), then the document is opened in an in-process server and diagnostics plus every feature request at hostile positions (origin, inside, past the end of line and file, huge, inside surrogate pairs; every position for a third of the documents below 300 bytes) must return; a panic, a fatal error, more than 3 GiB resident or 10 s CPU for one request (background analysis included) ends the child and is attributed to the journalled input. CPU time (getrusage, not wall clock) of every request must stay below 100 ms + 10 us per input byte (0.75 s at 64 KiB; a linear pass costs 1-30 ms). (3) scaling oracle: each shape family at 2, 16 and 64 KiB, per-byte CPU cost of every request may grow at most 6-fold from 2 KiB to 64 KiB (quadratic = 32-fold); judged only when the 64 KiB request costs >= 30 ms. (4) wire sessions against the built binary with the input both as didOpen text and as an included file on disk (raw bytes): every request must be answered, the process must stay alive, child CPU per request bounded as above. Non-trivial = inputs that differ from every seed; distinct by input hash.",
+		Rule:       "byte strings up to 64 KiB: (1) journals from G and hand-written corner snippets mutated by 1-6 operators (bit flips, deletions, duplications, truncation, splices of a dictionary of syntax fragments, invalid UTF-8 sequences, control characters, BOM, Unicode blanks and separators, extreme numbers and exponents, malformed dates), (2) parametric hostile shapes (one long line, 'a|a|a|...' headers, deeply nested account names, huge digit strings, grouped numbers, thousands of tags, brackets, quotes, blank lines, tiny transactions, postings, directives with sub-directives, include lines, ...) at sizes up to 64 KiB. Each input: the lexer is run alone (progress oracle: token spans inside the input, left to right, no overlap, gaps only blanks, EOF token at len(input), token count <= 2n+8), then the document is opened in an in-process server and diagnostics plus every feature request at hostile positions (origin, inside, past the end of line and file, huge, inside surrogate pairs; every position for a third of the documents below 300 bytes) must return; a panic, a fatal error, more than 3 GiB resident or 10 s CPU for one request (background analysis included) ends the child and is attributed to the journalled input. CPU time (getrusage, not wall clock): a request may use 100 ms + 10 us per input byte on the thread it runs on (0.75 s at 64 KiB; a linear pass costs 1-30 ms), a notification with the analysis it starts 600 ms + 15 us per byte of the whole process (garbage collection is billed there). (3) scaling oracle: each shape family at 2, 16 and 64 KiB, per-byte CPU cost of every request may grow at most 6-fold from 2 KiB to 64 KiB (quadratic = 32-fold); judged only when the 64 KiB request costs >= 30 ms. (4) wire sessions against the built binary with the input both as didOpen text and as an included file on disk (raw bytes): every request must be answered, the process must stay alive, child CPU per request bounded as above. Non-trivial = inputs that differ from every seed; distinct by input hash.",
 		Notes:      []string{"no coverage guidance: the mutation operators and the dictionary are fixed, inputs are a function of (seed, index)", "a request that neither returns nor burns CPU is reported by the generous wall-clock watchdog as inconclusive"},
 		Cases: func(tier string) int64 {
 			a, b, c, d := c06Counts(tier)
@@ -360,21 +360,46 @@ func c06CPUWatchdog(c *Ctx) {
 	}
 }
 
+// c06Budget: CPU time of the thread a synchronous request runs on.
 func c06Budget(n int) time.Duration {
 	return 100*time.Millisecond + time.Duration(n)*10*time.Microsecond
+}
+
+// c06BudgetBackground: CPU time of the whole process while a notification and the analysis it
+// starts are worked off (garbage collection and harness goroutines are billed too, hence the base).
+func c06BudgetBackground(n int) time.Duration {
+	return 600*time.Millisecond + time.Duration(n)*15*time.Microsecond
 }
 
 // c06Timed runs fn as request name on its own goroutine and returns its CPU cost. A request that is
 // blocked (goroutine state, not timing) while no server goroutine can make progress is a deadlock:
 // the child prints the dump and exits, the parent attributes it to the journalled input.
 func c06Timed(name string, fn func()) time.Duration {
+	d, _ := c06Timed2(name, fn)
+	return d
+}
+
+func threadCPU() time.Duration {
+	var ru syscall.Rusage
+	syscall.Getrusage(1 /* RUSAGE_THREAD */, &ru)
+	return time.Duration(ru.Utime.Nano() + ru.Stime.Nano())
+}
+
+// c06Timed2 returns the CPU time of the whole process during the call (which includes background
+// goroutines and the garbage collector) and the CPU time of the thread the call itself ran on.
+func c06Timed2(name string, fn func()) (process, thread time.Duration) {
 	t0 := cpuNow()
 	c06ReqName.Store(name)
 	c06ReqStart.Store(int64(t0) + 1)
 	done := make(chan struct{})
 	var carried *carriedPanic
+	var own time.Duration
 	go sessionCall(func() {
+		runtime.LockOSThread()
+		defer runtime.UnlockOSThread()
+		th0 := threadCPU()
 		defer func() {
+			own = threadCPU() - th0
 			if r := recover(); r != nil {
 				carried = &carriedPanic{Value: r, Stack: string(debug.Stack())}
 			}
@@ -391,7 +416,7 @@ func c06Timed(name string, fn func()) time.Duration {
 			if carried != nil {
 				panic(*carried)
 			}
-			return cpuNow() - t0
+			return cpuNow() - t0, own
 		case <-tick.C:
 			st := sessionCallState()
 			if i := strings.IndexByte(st, '|'); i > 0 && isBlockedState(st[:i]) && ServerGoroutines().Active == 0 {
@@ -537,7 +562,8 @@ func c06Battery(c *Ctx, r *RNG, dir, text, class string) bool {
 		}
 		return m
 	}
-	slow := func(name string, d time.Duration) bool {
+	bgBudget := c06BudgetBackground(n)
+	slowOf := func(name string, d, budget time.Duration) bool {
 		if d <= budget {
 			return false
 		}
@@ -549,6 +575,8 @@ func c06Battery(c *Ctx, r *RNG, dir, text, class string) bool {
 			Detail: fmt.Sprintf("%s on %d bytes (%s) took %v of CPU time, budget %v", name, n, class, d.Round(time.Millisecond), budget), Witness: wit(map[string]any{"request": name, "cpu_ms": d.Milliseconds()})})
 		return true
 	}
+	// notifications with background analysis: CPU of the whole process; requests: CPU of their thread
+	slow := func(name string, d time.Duration) bool { return slowOf(name, d, bgBudget) }
 	d, ok := c06Open(s, uri, text)
 	c.Count("requests", 1)
 	if !ok {
@@ -572,10 +600,17 @@ func c06Battery(c *Ctx, r *RNG, dir, text, class string) bool {
 	first := true
 	for _, p := range positions {
 		for _, rq := range c06Requests(s, uri, p, first) {
-			d := c06Timed(rq.Name, rq.Do)
+			_, own := c06Timed2(rq.Name, rq.Do)
 			c.Count("requests", 1)
-			if slow(rq.Name, d) {
+			if slowOf(rq.Name, own, budget) {
 				return false
+			}
+			if own > budget/4 {
+				// evidence: how close the costliest requests come to the budget
+				c.Count("requests_above_a_quarter_of_the_budget", 1)
+				if c.Rep.Counters["requests_above_a_quarter_of_the_budget"] <= 3 {
+					c.Sample(map[string]any{"costly_request": rq.Name, "thread_cpu_ms": own.Milliseconds(), "budget_ms": budget.Milliseconds(), "input_bytes": n, "input_class": class, "head": oneLine(text, 100)})
+				}
 			}
 		}
 		first = false
@@ -681,12 +716,24 @@ func c06Scaling(c *Ctx, r *RNG, dir string, f c06Family) {
 			if longest >= 0 {
 				p = protocol.Position{Line: uint32(longest), Character: uint32(u16len(text[starts[longest]:ends[longest]]))}
 			}
-			for _, rq := range c06Requests(s, uri, p, true) {
+			reqs := c06Requests(s, uri, p, true)
+			// and once on a name: the first word of the first indented line
+			for l := range starts {
+				lt := text[starts[l]:ends[l]]
+				if ind := len(lt) - len(strings.TrimLeft(lt, " \t")); ind > 0 && ind < len(lt) {
+					for _, rq := range c06Requests(s, uri, protocol.Position{Line: uint32(l), Character: uint32(ind + 1)}, false) {
+						rq.Name = "on-name:" + rq.Name
+						reqs = append(reqs, rq)
+					}
+					break
+				}
+			}
+			for _, rq := range reqs {
 				name := rq.Name
 				if i := strings.IndexByte(name, '@'); i > 0 {
 					name = name[:i]
 				}
-				d := c06Timed(rq.Name, rq.Do)
+				_, d := c06Timed2(rq.Name, rq.Do)
 				if v, ok := best[name]; !ok || d < v {
 					best[name] = d
 				}
